@@ -35,6 +35,9 @@ type RefOpts struct {
 	Excl     map[string]bool
 	// Untyped: no checker ran, so integer literals in call arguments keep kind int
 	Untyped bool
+	// MaxAlloc bounds what the reference itself is willing to build (0 = 6e6 elements): beyond it the
+	// evaluation stops with class "toolong"
+	MaxAlloc int64
 }
 
 type refEv struct {
@@ -56,6 +59,9 @@ func RefEval(x *X, env interface{}, opts RefOpts) (res *RefResult) {
 	}
 	if opts.MaxSteps == 0 {
 		opts.MaxSteps = 2000000
+	}
+	if opts.MaxAlloc == 0 {
+		opts.MaxAlloc = 6000000
 	}
 	res = &RefResult{}
 	ev := reflect.ValueOf(env)
@@ -288,6 +294,9 @@ func (e *refEv) account(n *X, size int64) {
 	}
 	if e.alloc >= e.opts.Budget {
 		e.fail("budget", n, "allocation total %d reaches budget %d", e.alloc, e.opts.Budget)
+	}
+	if e.alloc > e.opts.MaxAlloc {
+		e.fail("toolong", n, "the reference will not build %d elements", e.alloc)
 	}
 }
 
